@@ -150,7 +150,7 @@ impl<'a> Rend<'a> {
     fn items(&mut self, c: &Value, pos: &str) -> String {
         let items: Vec<String> = c["items"].as_array().unwrap().iter().map(|i| {
             let e = self.expr(&i["e"], pos);
-            if gs(i, "as").is_empty() { e } else { format!("{} AS {}", e, gs(i, "as")) }
+            if gs(i, "as").is_empty() || (gs(&i["e"], "e") == "var" && gs(&i["e"], "x") == gs(i, "as")) { e } else { format!("{} AS {}", e, gs(i, "as")) }
         }).collect();
         format!("{}{}", if c["distinct"].as_bool().unwrap() { "DISTINCT " } else { "" }, items.join(", "))
     }
@@ -417,11 +417,18 @@ fn run(scripts: &str, trace: &str, opts: &Opts) -> Res<()> {
                     let out = outcome(exec_text(&w.store, &text, None), &w.h, ordered, 1);
                     let mut x = json!({"text": text, "shape": shape_of(q), "out": out});
                     if mode == "c35" {
-                        let (ptext, params) = render(q, gs(step, "pm"));
-                        let np = params.len();
-                        x["ptext"] = json!(ptext);
-                        x["np"] = json!(np);
-                        x["pout"] = outcome(exec_text(&w.store, &ptext, Some(params)), &w.h, ordered, 1);
+                        // every position class that holds at least one literal of this query, and all of them together
+                        let mut pouts = Vec::new();
+                        for pm in ["where", "ret", "with", "order", "inline", "unwind", "list", "skiplimit", "all"] {
+                            let (ptext, params) = render(q, pm);
+                            if params.is_empty() || (pm == "all" && pouts.len() < 2) {
+                                continue;
+                            }
+                            let np = params.len();
+                            let pout = outcome(exec_text(&w.store, &ptext, Some(params)), &w.h, ordered, 1);
+                            pouts.push(json!({"pm": pm, "ptext": ptext, "np": np, "out": pout}));
+                        }
+                        x["pouts"] = json!(pouts);
                     }
                     tr.emit(event_from(step, x))?;
                 } else {
